@@ -281,6 +281,8 @@ FINDINGS = [
          what="Utils.map(1, 1e16, 10**16 + 1, 0, 1) raised ZeroDivisionError instead of refusing the zero-width range with ValueError", cases=[]),
     dict(id="KF-C20-core-edge-values", property="C20", status="fixed", commit="043384b",
          what="Core.analog_write(pin, inf) raised OverflowError instead of clamping; pin names like '\u00b2' raised ValueError in every Core function", cases=[]),
+    dict(id="KF-C19-nan-durations", property="C19", status="fixed", commit="de4520c",
+         what="Led.blink(nan), RGBLed.blink(.., delay_ms=nan), DCMotor.run_for(nan, 0.5), ramp(0.5, inf) passed the '< 0' test and failed inside time.sleep() after the object had changed", cases=[]),
     dict(id="KF-C14-lcd-rebind", property="C14", status="open", commit=None,
          what="one name bound first to a parallel LCD and later to an I2C LCD (or the reverse): both libraries are requested, but the emitter keeps only the first display (one header, one object); outside the documented style, like KF-C05-rebind",
          cases=c14_rebind_cases()),
